@@ -77,8 +77,11 @@ pub fn exec_corpus(spec: &Spec, st: &mut Stats) -> Vec<u64> {
             Op::U32 => guard(|| g.next_u32()).map(|v| d.u64(v as u64)),
             Op::U64 => guard(|| g.next_u64()).map(|v| d.u64(v)),
             Op::Fill(n) => {
-                let mut b = vec![0u8; *n as usize];
-                guard(|| g.fill_bytes(&mut b)).map(|_| d.bytes(&b))
+                // destination at a varying offset from an aligned allocation (see c05::do_call)
+                let n = *n as usize;
+                let off = (n ^ (n >> 3) ^ (n >> 7)) & 15;
+                let mut buf = vec![0u8; n + 16];
+                guard(|| g.fill_bytes(&mut buf[off..off + n])).map(|_| d.bytes(&buf[off..off + n]))
             }
             Op::Jump => guard(|| g.jump()).map(|_| ()),
             Op::LongJump => guard(|| g.long_jump()).map(|_| ()),
